@@ -19,6 +19,7 @@ type Clause struct {
 type LoopContract struct {
 	Invariants []Clause
 	Decreases  []string
+	merged     bool
 }
 
 type Contract struct {
@@ -35,6 +36,14 @@ type Contract struct {
 	File      string
 	Line      int
 	Used      bool
+	// templates
+	IsTemplate   bool
+	TemplRecv    string   // receiver type name
+	TemplPattern string   // function name glob
+	Except       []string
+	LoopInv      []Clause // default invariants for every for-loop without own contract
+	LoopDec      []string // default decreases for every for-loop without own contract
+	FromTemplate bool
 }
 
 func (c *Contract) ServesProp(p string) bool {
@@ -57,6 +66,7 @@ var clauseKeywords = map[string]bool{
 	"serves": true, "requires": true, "ensures": true, "modifies": true, "decreases": true,
 	"loop": true, "flag": true, "pure": true, "trusted": true, "inline": true, "opaque": true,
 	"nopanic": true, "maypanic": true, "unroll": true, "abstract": true, "allocates": true, "replaytext": true, "wrap": true, "overflow": true, "norac": true, "stages": true,
+	"except": true, "loopinvariant": true, "loopdecreases": true, "notemplate": true,
 }
 
 // parseContracts reads all /*@ ... @*/ blocks of a contracts file.
@@ -89,6 +99,8 @@ func parseContracts(pkgDir string) ([]*Contract, error) {
 	return out, nil
 }
 
+var templateRe = regexp.MustCompile(`^template\s+for\s+\(\s*(?:\w+\s+)?\*?\s*(\w+)\s*\)\s*([\w*?]+)\s*$`)
+
 var targetRe = regexp.MustCompile(`^func\s*(?:\(\s*(?:\w+\s+)?\*?\s*([\w.]+)\s*\))?\s*([\w.\[\]"]+)\s*$`)
 
 func parseBlock(body string) (*Contract, error) {
@@ -113,15 +125,22 @@ func parseBlock(body string) (*Contract, error) {
 	if len(clauses) == 0 {
 		return nil, fmt.Errorf("empty contract block")
 	}
-	m := targetRe.FindStringSubmatch(clauses[0])
-	if m == nil {
-		return nil, fmt.Errorf("bad contract target %q", clauses[0])
-	}
 	c := &Contract{Loops: map[int]*LoopContract{}, Flags: map[string]string{}}
-	if m[1] != "" {
-		c.Key = m[1] + "." + m[2]
+	if tm := templateRe.FindStringSubmatch(clauses[0]); tm != nil {
+		c.IsTemplate = true
+		c.TemplRecv = tm[1]
+		c.TemplPattern = tm[2]
+		c.Key = "template:" + tm[1] + "." + tm[2]
 	} else {
-		c.Key = m[2]
+		m := targetRe.FindStringSubmatch(clauses[0])
+		if m == nil {
+			return nil, fmt.Errorf("bad contract target %q", clauses[0])
+		}
+		if m[1] != "" {
+			c.Key = m[1] + "." + m[2]
+		} else {
+			c.Key = m[2]
+		}
 	}
 	for _, cl := range clauses[1:] {
 		kw, rest := cl, ""
@@ -129,6 +148,18 @@ func parseBlock(body string) (*Contract, error) {
 			kw, rest = cl[:i], strings.TrimSpace(cl[i+1:])
 		}
 		switch kw {
+		case "except":
+			for _, e := range strings.Split(rest, ",") {
+				if e = strings.TrimSpace(e); e != "" {
+					c.Except = append(c.Except, e)
+				}
+			}
+		case "loopinvariant":
+			c.LoopInv = append(c.LoopInv, mkClause(rest, len(c.LoopInv)+1))
+		case "loopdecreases":
+			for _, d := range splitTop(rest, ',') {
+				c.LoopDec = append(c.LoopDec, strings.TrimSpace(d))
+			}
 		case "serves":
 			for _, s := range strings.Split(rest, ",") {
 				if s = strings.TrimSpace(s); s != "" {
@@ -262,6 +293,9 @@ func indexTop(s, sub string) int {
 	return -1
 }
 
+// racMode switches specToGo to executable (lazy) connectives.
+var racMode bool
+
 var wordRe = regexp.MustCompile(`[A-Za-z_][A-Za-z_0-9]*`)
 
 // specToGo rewrites a spec expression into a Go expression over marker functions.
@@ -289,9 +323,16 @@ func specToGo(s string, resultName string) string {
 		}
 	}
 	if i := indexTop(s, "<==>"); i >= 0 {
+		if racMode {
+			return "((" + specToGo(s[:i], resultName) + ") == (" + specToGo(s[i+4:], resultName) + "))"
+		}
 		return "__iff(" + specToGo(s[:i], resultName) + ", " + specToGo(s[i+4:], resultName) + ")"
 	}
 	if i := indexTop(s, "==>"); i >= 0 {
+		if racMode {
+			// executable checks need a lazy implication
+			return "(!(" + specToGo(s[:i], resultName) + ") || (" + specToGo(s[i+3:], resultName) + "))"
+		}
 		return "__imp(" + specToGo(s[:i], resultName) + ", " + specToGo(s[i+3:], resultName) + ")"
 	}
 	// recurse into bracketed groups
@@ -370,6 +411,10 @@ func specToGo(s string, resultName string) string {
 					sb.WriteString("__fresh")
 				case w == "samefn" && next == '(':
 					sb.WriteString("__samefn")
+				case w == "entry" && next == '(':
+					sb.WriteString("__entry")
+				case w == "rangeindex" && next == '(':
+					sb.WriteString("__rangeindex")
 				case w == "result":
 					sb.WriteString(resultName)
 				case len(w) == 4 && strings.HasPrefix(w, "ret") && w[3] >= '0' && w[3] <= '9':
@@ -384,4 +429,83 @@ func specToGo(s string, resultName string) string {
 		}
 	}
 	return sb.String()
+}
+
+// applyTemplates expands template contracts over the functions of a package.
+// funcs maps "Recv.Name" to true for every declared method/function.
+func applyTemplates(contracts []*Contract, funcs []string) []*Contract {
+	var out []*Contract
+	byKey := map[string]*Contract{}
+	var templates []*Contract
+	for _, c := range contracts {
+		if c.IsTemplate {
+			templates = append(templates, c)
+			continue
+		}
+		out = append(out, c)
+		byKey[c.Key] = c
+	}
+	for _, t := range templates {
+		t.Used = true
+		for _, fk := range funcs {
+			i := strings.Index(fk, ".")
+			if i < 0 || fk[:i] != t.TemplRecv {
+				continue
+			}
+			name := fk[i+1:]
+			if ok, _ := filepath.Match(t.TemplPattern, name); !ok {
+				continue
+			}
+			skip := false
+			for _, e := range t.Except {
+				if ok, _ := filepath.Match(e, name); ok {
+					skip = true
+				}
+			}
+			if skip {
+				continue
+			}
+			c := byKey[fk]
+			if c != nil && c.Flags["notemplate"] != "" {
+				continue
+			}
+			if c == nil {
+				c = &Contract{PkgDir: t.PkgDir, Key: fk, Loops: map[int]*LoopContract{}, Flags: map[string]string{}, File: t.File, Line: t.Line, FromTemplate: true}
+				out = append(out, c)
+				byKey[fk] = c
+			}
+			// template clauses come first, labelled with a t- prefix
+			pre := func(cs []Clause) []Clause {
+				var r []Clause
+				for _, cl := range cs {
+					r = append(r, Clause{Label: "t-" + cl.Label, Text: cl.Text})
+				}
+				return r
+			}
+			c.Requires = append(pre(t.Requires), c.Requires...)
+			c.Ensures = append(pre(t.Ensures), c.Ensures...)
+			if t.HasMod && !c.HasMod {
+				c.HasMod = true
+				c.Modifies = t.Modifies
+			}
+			for _, sv := range t.Serves {
+				if !c.ServesProp(sv) || len(c.Serves) == 0 {
+					c.Serves = append(c.Serves, sv)
+				}
+			}
+			for k, v := range t.Flags {
+				if _, ok := c.Flags[k]; !ok {
+					c.Flags[k] = v
+				}
+			}
+			c.LoopInv = append(pre(t.LoopInv), c.LoopInv...)
+			if len(c.LoopDec) == 0 {
+				c.LoopDec = t.LoopDec
+			}
+			if len(c.Decreases) == 0 {
+				c.Decreases = t.Decreases
+			}
+		}
+	}
+	return out
 }
